@@ -76,6 +76,7 @@ func properties() map[string]*PropertySpec {
 			nat("H_C03_dispatch", "served", "<= 2 routes of 6 kinds with every criteria subset, 0..2 default-route registrations, unbind route or not, request of 6 kinds, scope any int64 on routes / 0..2 on requests", "quick"),
 			nat("H_C03_dispatch3", "served", "as quick with <= 3 routes", "thorough"),
 			nat("H_C03_pairing", "paired", "serveRequests with <= 3 requests: one serve call per request with its own (writer, request) pair", ""),
+			nat("H_C03_sequence", "sequence served", "two searches in a row on one connection against two search routes (optional base / scope criteria) and an optional default route", ""),
 		}})
 	add(&PropertySpec{ID: "C10",
 		Functions: "(*conn).serveRequests, (*conn).readRequest, (*conn).close, newRequest, (*Mux).serve, unbindRoute handler dispatch",
@@ -89,8 +90,9 @@ func properties() map[string]*PropertySpec {
 	}
 	add(&PropertySpec{ID: "C08",
 		Functions: "(*Server).Run, Run$1 (connection goroutine) and its deferred teardown, (*conn).serveRequests, serveRequests$1, (*conn).close, (*Server).Stop, (*Mux).serve",
-		Outside:   []string{"more than one connection per scenario (connections share no state in Run$1), more than 2 handlers in flight", "plain connections only in this check (TLS wrapping is C13/C18); file descriptors are the net stub's Close events"},
+		Outside:   []string{"more than two connections per scenario (the nine endings are explored with one connection, ID reporting with two), more than 2 handlers in flight", "plain connections only in this check (TLS wrapping is C13/C18); file descriptors are the net stub's Close events"},
 		Harnesses: []HarnessSpec{
+			eng("H_C09_overlap", "ids", "two connections open at the same time, ending one after the other: OnClose reports each connection's own ID (the ID its requests saw), once", ""),
 			eng("H_C08_endings", "ended", "9 endings (EOF, reset, Unbind, malformed, unsupported, read timeout, panic on the read loop, Stop mid-stream, SetReadDeadline failure) x 0..2 handlers in flight held by gates x unbind route or not; deterministic eager schedule plus the gate-controlled phases", ""),
 		}})
 	add(&PropertySpec{ID: "C06",
